@@ -274,8 +274,8 @@ def run_impl(case, path, vals):
             if isinstance(exc, c01.RunTimeout):
                 c01.TIMEOUTS[0] += 1
             if told and told[0] is None:
-                return [-1, [type(exc).__name__]], None
-            return [-1, [type(exc).__name__]], 0
+                return c01.failed(type(exc).__name__), None
+            return c01.failed(type(exc).__name__), 0
     finally:
         S.SearchConstraintsManager.apply_global = real
     pos = 0
